@@ -8,6 +8,8 @@ puts each value into the field tagged with its key, and the dispatch on __typena
 checked on the compiled code against an independent reference executor.
 -/
 import Genq.Model.Collect
+import Genq.Model.Codec
+import Genq.Proofs.CodecFaithful
 namespace Genq.Collect
 
 /-- **C02_fragmentMatches_is_DoesFragmentTypeApply** — on a well-formed schema, for an object
@@ -91,3 +93,62 @@ theorem C02_nested_condition_witness :
     fragmentMatches content video = false := by decide
 
 end Genq.Collect
+
+/-! ### faithfulness of the generated decoder, on its model (Model/Codec.lean) -/
+namespace Genq.Codec
+open Genq.Types (J)
+
+/-- **C02_every_carrier_decodes_its_key** — decode one JSON object `o` into a struct with any nesting of embedded
+    fragment structs.  Then every carrier of a response key — the struct's own field and the field of every
+    embedded fragment (at any depth) that selects the key — holds exactly `fieldDec t (lookup o key)`: the
+    decoding, by that field's own type, of the value the object has for that key (`e` ranges over all fields of the
+    closure with what MarshalJSON would write for them, so the statement is about the stored values).  Nothing is
+    dropped, nothing is taken from another key — up to encoding/json's case-insensitive `lookup`, which is where
+    known finding F-02t lives (`C02_fold_twin_witness`). -/
+theorem C02_every_carrier_decodes_its_key (fs : Flds) (o : List (String × J)) (vs : List Val) (d : Nat)
+    (h : decFields fs o = .ok vs) :
+    ∀ e ∈ encAll fs vs d, ∃ t v, (e.2.1, t) ∈ closureFields fs ∧ fieldDec t (lookup o e.2.1) = .ok v ∧ e.2.2 = fieldEnc t v :=
+  faithfulFields fs o vs d h
+
+/-- with exact keys only (no key of the object differs from `n` merely in letter case) `lookup` is the last
+    value given for `n`: the case the property's naming rule speaks about -/
+theorem C02_lookup_exact (o : List (String × J)) (n : String) (h : ∀ kv ∈ o, keyEq kv.1 n = true → kv.1 = n) :
+    lookup o n = (o.filter (fun kv => kv.1 == n)).getLast?.map (·.2) := by
+  induction o with
+  | nil => rfl
+  | cons kv rest ih =>
+    obtain ⟨k, v⟩ := kv
+    have ih' := ih (fun kv hkv => h kv (List.mem_cons_of_mem _ hkv))
+    simp only [lookup, ih']
+    by_cases hk : k = n
+    · subst hk
+      simp only [List.filter_cons, beq_self_eq_true, if_true]
+      cases hr : rest.filter (fun kv => kv.1 == k) with
+      | nil => simp [keyEq]
+      | cons x xs =>
+        have : ((k, v) :: x :: xs).getLast? = (x :: xs).getLast? := List.getLast?_cons_cons
+        rw [this]
+        cases hl : (x :: xs).getLast? with
+        | none => simp at hl
+        | some y => simp
+    · have hke : keyEq k n = false := by
+        cases hke : keyEq k n with
+        | false => rfl
+        | true => exact absurd (h (k, v) List.mem_cons_self hke) hk
+      have hb : (k == n) = false := by simpa using hk
+      simp only [List.filter_cons, hb, Bool.false_eq_true, if_false, hke]
+      cases (rest.filter (fun kv => kv.1 == n)).getLast? <;> simp
+
+/-- **C02_fold_twin_witness** (known finding F-02t; the same history is replayed on the compiled code by
+    corpus/C02/f02t-…): `user { ...A userID }` with `fragment A on User { userId }` and the response
+    `{"userId":"a","userID":"b"}` — the fragment's UserId ends up with "b". -/
+theorem C02_fold_twin_witness :
+    dec (.struct (.cons "A" true (.struct (.cons "userId" false (.leaf .str) .nil)) (.cons "userID" false (.leaf .str) .nil)))
+      (.obj [("userId", .str "a"), ("userID", .str "b")]) = .ok (.struct [.struct [.leaf (.str "b")], .leaf (.str "b")]) := rfl
+
+-- non-vacuity: a struct with an embedded fragment sharing `id` decodes, and both carriers hold "u1"
+example : decFields (.cons "id" false (.leaf .str) (.cons "F" true (.struct (.cons "id" false (.leaf .str) .nil)) .nil))
+    [("id", .str "u1")] = .ok [.leaf (.str "u1"), .struct [.leaf (.str "u1")]] := rfl
+
+end Genq.Codec
+
